@@ -297,6 +297,18 @@ func decideCase(c dCase) (fail *rp.Fail, exempt bool) {
 					return
 				}
 				site, msg = checkDateTimeCore(c)
+			case "datepair":
+				// two dates of the same year converted back to back, then the first one again (H = month, Mi = day of the second)
+				if !zones.DayExists(loc, c.Y, c.M, c.D) || !zones.DayExists(loc, c.Y, c.H, c.Mi) {
+					exempt = true
+					return
+				}
+				for _, d := range [][2]int{{c.M, c.D}, {c.H, c.Mi}, {c.M, c.D}} {
+					if site, msg = checkDateCore(c.Y, d[0], d[1]); site != "" {
+						site, msg = site+"/second-of-a-pair", "(dates "+fmt.Sprintf("%04d-%02d-%02d and %04d-%02d-%02d", c.Y, c.M, c.D, c.Y, c.H, c.Mi)+" converted back to back) "+msg
+						return
+					}
+				}
 			}
 		}); p != nil {
 			site, msg = "panic", fmt.Sprint(p)
@@ -367,6 +379,19 @@ func sweep(yield func(dCase) bool) {
 				return
 			}
 		}
+		// boundary date-times (next to the wire sentinels, ends of centuries / years / months / days)
+		for _, y := range []int{1, 1900, 1970, 1999, 2000, 2001, 2038, 2100, 9999} {
+			for _, md := range [][2]int{{1, 1}, {1, 2}, {2, 28}, {12, 31}} {
+				for _, hms := range [][3]int{{0, 0, 0}, {0, 0, 1}, {23, 59, 59}} {
+					if y == 1 && md == [2]int{1, 1} {
+						continue
+					}
+					if !yield(dCase{Zone: z, Kind: "datetime", Y: y, M: md[0], D: md[1], H: hms[0], Mi: hms[1], S: hms[2]}) {
+						return
+					}
+				}
+			}
+		}
 		// civil times in and around every transition 1970-2040
 		trs := zones.Transitions(z, 1970, 2040)
 		step := 1
@@ -395,6 +420,14 @@ func genCase(t *rapid.T) dCase {
 	names := zones.Names()
 	z := names[rapid.IntRange(0, len(names)-1).Draw(t, "zone")]
 	c := gen.Civil(t, "date")
+	if rapid.IntRange(0, 3).Draw(t, "pair") == 0 {
+		m2 := rapid.IntRange(1, 12).Draw(t, "m2")
+		d2 := rapid.IntRange(1, spec.DaysIn(c.Y, m2)).Draw(t, "d2")
+		if c.Y == 1 && m2 == 1 && d2 == 1 {
+			d2 = 2 // 0001-01-01 is outside the stated domain
+		}
+		return dCase{Zone: z, Kind: "datepair", Y: c.Y, M: c.M, D: c.D, H: m2, Mi: d2}
+	}
 	if rapid.Bool().Draw(t, "datetime") {
 		return dCase{Zone: z, Kind: "datetime", Y: c.Y, M: c.M, D: c.D, H: rapid.IntRange(0, 23).Draw(t, "h"), Mi: rapid.IntRange(0, 59).Draw(t, "mi"), S: rapid.IntRange(0, 59).Draw(t, "s")}
 	}
